@@ -22,7 +22,7 @@ def post_stage(stage, res, verdict):
 
 
 RULE = ("case index enumerates the 3 geometries x 3 smooth problems x 7 profiles x 2 boundary modes = 126 tuples (thorough: 4 passes "
-        "with different strategy / caches / cycle / R0 / anisotropy draws; quick: 32 of them selected by VERIF_SEED via the index "
+        "with different strategy / caches / cycle / R0 / anisotropy / hierarchy depth (maxLevels -1, 2, 3) draws; quick: 32 of them selected by VERIF_SEED via the index "
         "offset); each chain solves divideBy2 = 0..2 (quick) / 0..3 (thorough) with and without implicit extrapolation to a relative "
         "residual of 1e-10; errors are computed by the harness from solution() and the ExactSolution class; a pair is judged when its "
         "finer grid is >= 65 x 128 and the algebraic error is negligible (error unchanged to 1% under a 100x looser tolerance); "
